@@ -75,28 +75,22 @@ Definition IN_ADDR_ARPA : bytes := [46; 105; 110; 45; 97; 100; 100; 114; 46; 97;
 
 (* ------------------------------------------------------------------ *)
 (* one name decode of decodeRRs: tmpBuf = buffer; decodeName(p, off, &tmpBuf, 1).
-   [arr0] is the current contents of buffer's backing array (earlier decodes of
-   the same call write into it in place). Returns name, end offset, whether the
-   returned name still aliases buffer's array, and the array afterwards. *)
-Definition rr_decode_name (p : slice) (off : nat) (buffer : slice) (arr0 : bytes)
-  : res (bytes * nat * bool * bytes) :=
-  r <- decodeName name_fuel p off (mkBuf arr0 (firstn (len buffer) arr0) true) 1 ;;
-  let b := snd r in
-  Ok (fst (fst r), snd (fst r), bs b, ba b).
-
-(* the bytes a name slice shows after later in-place writes to the array it aliases *)
-Definition realias (buffer : slice) (name : bytes) (aliased : bool) (arr1 : bytes) : bytes :=
-  if aliased then sub arr1 (S (len buffer)) (length name) else name.
+   The returned name aliases the scratch buffer; every use below converts it to a
+   string before the next decode (the CNAME owner since fix 3), so only its bytes matter. *)
+Definition rr_decode_name (p : slice) (off : nat) (buffer : slice) : res (bytes * nat) :=
+  r <- decodeName name_fuel p off (buf_of buffer) 1 ;;
+  Ok (fst (fst r), snd (fst r)).
 
 (* outcome of decodeRRs plus the entry as the call left it (the maps are updated in place,
-   so records inserted before an error or panic stay) *)
+   so records inserted before an error stay) *)
 Definition rrs_out : Type := (res (Z * bool) * dns_entry)%type.
 
-Definition rr_step (p : slice) (buffer : slice) (offset : nat) (e : dns_entry) (arr0 : bytes)
-  : res (nat * bool * dns_entry * bytes) * dns_entry :=
-  match rr_decode_name p offset buffer arr0 with
+Definition rr_step (p : slice) (buffer : slice) (offset : nat) (e : dns_entry)
+  : res (nat * bool * dns_entry) * dns_entry :=
+  match rr_decode_name p offset buffer with
   | Err x => (Err x, e) | Panic => (Panic, e) | Fuel => (Fuel, e)
-  | Ok (name, endq, aliased, arr1) =>
+  | Ok (name, endq) =>
+    if Nat.ltb (len p) (endq + 10) then (Err EOther, e) else
     match (t <- be16_at p endq ;; ttl <- be32_at p (endq + 4) ;; dl <- be16_at p (endq + 8) ;; Ok (t, ttl, dl)) with
     | Err x => (Err x, e) | Panic => (Panic, e) | Fuel => (Fuel, e)
     | Ok (t, ttl, dl) =>
@@ -108,48 +102,46 @@ Definition rr_step (p : slice) (buffer : slice) (offset : nat) (e : dns_entry) (
           let ip := sub (arr p) (endq + 10) 4 in
           let '(l, u) := ins_ip ir_ip (mkIPRR name ip ttl) (de_ip4 e) in
           let e' := mkDE (de_name e) l (de_ip6 e) (de_cname e) (de_ptr e) in
-          (Ok (offset', u, e', arr1), e')
+          (Ok (offset', u, e'), e')
       else if t =? 28 then
         if negb (dl =? 16) then (Err EOther, e)
         else
           let ip := sub (arr p) (endq + 10) 16 in
           let '(l, u) := ins_ip ir_ip (mkIPRR name ip ttl) (de_ip6 e) in
           let e' := mkDE (de_name e) (de_ip4 e) l (de_cname e) (de_ptr e) in
-          (Ok (offset', u, e', arr1), e')
+          (Ok (offset', u, e'), e')
       else if t =? 5 then
-        match rr_decode_name p (endq + 10) buffer arr1 with
+        match rr_decode_name p (endq + 10) buffer with
         | Err x => (Err x, e) | Panic => (Panic, e) | Fuel => (Fuel, e)
-        | Ok (cname, _, _, arr2) =>
-            (* string(name) is evaluated AFTER the second decode wrote into the shared array *)
-            let name' := realias buffer name aliased arr2 in
-            let '(l, u) := ins_name (mkNRR name' cname ttl) (de_cname e) in
+        | Ok (cname, _) =>
+            let '(l, u) := ins_name (mkNRR name cname ttl) (de_cname e) in
             let e' := mkDE (de_name e) (de_ip4 e) (de_ip6 e) l (de_ptr e) in
-            (Ok (offset', u, e', arr2), e')
+            (Ok (offset', u, e'), e')
         end
       else if t =? 12 then
         match parse_ip (trim_suffix name IN_ADDR_ARPA) with
-        | PIerr => (Err EOther, e)
-        | PIv6text => (Err ETimeout, e)   (* IPv6 text form: not modelled; the harness never produces ':' in a PTR owner *)
+        | PIerr => (Ok (offset', false, e), e)   (* not an IPv4 reverse name: record ignored (fix 4) *)
+        | PIv6text => (Err ETimeout, e)   (* IPv6 text form: not modelled; the harness never produces ':' in a message *)
         | PIv4 a b c d =>
-            match rr_decode_name p (endq + 10) buffer arr1 with
+            match rr_decode_name p (endq + 10) buffer with
             | Err x => (Err x, e) | Panic => (Panic, e) | Fuel => (Fuel, e)
-            | Ok (ptr, _, _, arr2) =>
+            | Ok (ptr, _) =>
                 let '(l, u) := ins_ip ir_name (mkIPRR ptr [d; c; b; a] ttl) (de_ptr e) in
                 let e' := mkDE (de_name e) (de_ip4 e) (de_ip6 e) (de_cname e) l in
-                (Ok (offset', u, e', arr2), e')
+                (Ok (offset', u, e'), e')
             end
         end
-      else (Ok (offset', false, e, arr1), e)
+      else (Ok (offset', false, e), e)
     end
   end.
 
 Fixpoint decodeRRs_loop (count : nat) (p buffer : slice) (offset : nat) (updated : bool)
-         (e : dns_entry) (arr0 : bytes) : rrs_out :=
+         (e : dns_entry) : rrs_out :=
   match count with
   | O => (Ok (Z.of_nat offset, updated), e)
   | S c =>
-      match rr_step p buffer offset e arr0 with
-      | (Ok (offset', u, e', arr1), _) => decodeRRs_loop c p buffer offset' (updated || u) e' arr1
+      match rr_step p buffer offset e with
+      | (Ok (offset', u, e'), _) => decodeRRs_loop c p buffer offset' (updated || u) e'
       | (Err x, e') => (Err x, e')
       | (Panic, e') => (Panic, e')
       | (Fuel, e') => (Fuel, e')
@@ -162,7 +154,7 @@ Definition decodeRRs (count : nat) (p : slice) (offset : Z) (buffer : slice) (e 
   | O => (Ok (offset, false), e)
   | _ =>
       if (offset <? 0)%Z then (Err EParseFrame, e)
-      else decodeRRs_loop count p buffer (Z.to_nat offset) false e (arr buffer)
+      else decodeRRs_loop count p buffer (Z.to_nat offset) false e
   end.
 
 (* DecodeAnswers: count = p.ANCount() = BigEndian.Uint16(p[6:8]) *)
